@@ -153,6 +153,7 @@ type Sched struct {
 	wg       sync.WaitGroup
 
 	// exploration
+	consec  int // consecutive points passed by the running thread without a switch
 	prefix  []int
 	choices []ChoiceRec
 	steps   int
@@ -178,6 +179,10 @@ type Sched struct {
 	logging  bool
 	cleanups []func()
 }
+
+// FairSteps is the number of consecutive scheduling points after which the running thread
+// yields to the other enabled threads (see enabledList).
+var FairSteps = 400
 
 var cur *Sched // the active execution; nil in passthrough mode
 
@@ -307,7 +312,11 @@ func (s *Sched) enabledList(buf []int) (list []int, preempt bool) {
 	list = buf[:0]
 	c := s.cur
 	curEnabled := c != nil && c.state == tRunnable && !c.idle && (c.waitFor == nil || c.waitFor())
-	if curEnabled {
+	// fairness: a thread that has passed FairSteps consecutive points while others were
+	// waiting to run goes to the back of the line (a spin loop that waits for another enabled
+	// thread is not a livelock under the fair scheduler of the real runtime).
+	yield := curEnabled && s.consec >= FairSteps
+	if curEnabled && !yield {
 		list = append(list, c.ID)
 	}
 	for _, t := range s.threads {
@@ -316,6 +325,13 @@ func (s *Sched) enabledList(buf []int) (list []int, preempt bool) {
 		}
 		if t.waitFor == nil || t.waitFor() {
 			list = append(list, t.ID)
+		}
+	}
+	if yield {
+		if len(list) == 0 {
+			list = append(list, c.ID) // nobody else can run: keep going (a real livelock hits the horizon)
+		} else {
+			curEnabled = false // the spinner sits this round out; no alternative is offered
 		}
 	}
 	if len(list) == 0 {
@@ -392,8 +408,10 @@ func (s *Sched) switchAway(t *Thread, finished bool) {
 		if nt == t && !finished {
 			t.waitFor = nil
 			t.idle = false
+			s.consec++
 			return
 		}
+		s.consec = 0
 		s.cur = nt
 		nt.waitFor = nil
 		nt.idle = false
